@@ -894,3 +894,82 @@ impl Scenario for C16FixedTree {
         Ok(())
     }
 }
+
+/// the fragment entry point: a file holding the bare content of a MODULE, split into include files like a whole
+/// document. `load_fragment_file(path)` must resolve the directives relative to that file and give the module that
+/// `load_fragment` builds from the flattened text.
+pub struct C16Fragments;
+
+impl Scenario for C16Fragments {
+    fn property(&self) -> &'static str {
+        "C16"
+    }
+    fn name(&self) -> &'static str {
+        "fragment_files_with_includes"
+    }
+    fn run(&self, cx: &mut Cx) -> Result<(), Violation> {
+        let fs = SimFs::new("/cwd", cx.tape.draw_u64());
+        fs.install();
+        fs.mkdir_p("/work/frag");
+        let mut opts = GenOpts::swarm(&mut cx.tape);
+        opts.budget = opts.budget.clamp(8, 80);
+        opts.float_overflow = false;
+        let lo = LayoutOpts::swarm(&mut cx.tape);
+        let mut items: Vec<Item> = {
+            let mut g = DocGen::new(&mut cx.tape, opts);
+            g.fragment().into_iter().map(Item::Node).collect()
+        };
+        if items.is_empty() {
+            cx.vacuous = true;
+            return Ok(());
+        }
+        let mut st = SplitState { counter: 0, max_files: 1 + cx.tape.draw(4) as u32, made: 0, max_depth_reached: 0, decoys: Vec::new(), syntax: String::new() };
+        split_list(cx, &mut items, 0, "/work/frag", 1, &mut st, 6, false);
+        if st.made == 0 {
+            make_include(cx, &mut items, 0, "/work/frag", 1, &mut st, false);
+        }
+        let root = render_file(&mut cx.tape, "/work/frag/fragment.a2l", &items, &lo, 2);
+        install_tree(&fs, cx, &root);
+        for (rel, content) in &st.decoys {
+            let p = crate::vfs::normalize("/cwd", rel);
+            if fs.get(&p).is_none() {
+                fs.put(&p, content.as_bytes());
+                cx.probe("decoy-at-cwd-relative-location");
+            }
+        }
+        let flattened = root.flatten();
+        if cx.render {
+            for f in root.all_files() {
+                cx.event_lazy(&format!("file {} ({} bytes)", f.path, f.text.len()), || crate::runner::clip(&f.text, 1500));
+            }
+        }
+        let total = total_bytes(&fs);
+        fs.begin_op(BTreeMap::new(), false);
+        let loaded = sut::load_fragment_path(cx, "T1", "/work/frag/fragment.a2l", None, total)?;
+        let reference = sut::load_fragment(cx, "T1", &flattened, None)?;
+        match (loaded, reference) {
+            (Ok(m), Ok(rm)) => {
+                let mm = guarded(cx, "no-panic", "merge_includes", || {
+                    let mut c = m.clone();
+                    c.merge_includes();
+                    c
+                })?;
+                let eq = guarded(cx, "no-panic", "model comparison", || mm == rm)?;
+                if !eq {
+                    return Err(cx.fail("T1", "include-not-transparent", "load_fragment_file(main) differs from load_fragment(flattened text)".to_string()));
+                }
+                if root.has_elements() && root.directives.iter().any(|d| d.file.has_elements()) {
+                    cx.nontrivial = true;
+                }
+            }
+            (Err(e), Ok(_)) => return Err(cx.fail("T1", "include-load-failed", format!("the flattened fragment loads but load_fragment_file(main) fails: {e}"))),
+            (Ok(_), Err(e)) => return Err(cx.fail("T1", "flattened-text-rejected", format!("load_fragment_file(main) succeeds but the flattened fragment is rejected: {e}"))),
+            (Err(_), Err(_)) => {
+                cx.vacuous = true;
+            }
+        }
+        cx.sig(&format!("fragment|{}|{}|{}", st.made.min(4), st.max_depth_reached, st.syntax));
+        SimFs::uninstall();
+        Ok(())
+    }
+}
